@@ -175,4 +175,48 @@ theorem burn_ok {c : AddrCodec} {now : Int} {s s' : State} {denomId id burner : 
         subst h
         exact ⟨p, rfl, by simpa using hne, by simpa using hc, rfl, rfl⟩
 
+theorem mint_supply {c : AddrCodec} {now : Int} {s s' : State} {denomId id name description uri uriHash data creator : Bytes}
+    (h : handle c now s (.mintPNFT denomId id name description uri uriHash data creator) = .ok s') :
+    ∃ d, s.classes.get denomId = some d ∧ s'.supply = s.supply.set d.id (wrap64 (getSupply s d.id + 1)) := by
+  have hv := validate_ok h
+  simp only [handle, validateBasic, hv, bind, Outcome.bind, pure] at h
+  cases hg : s.classes.get denomId with
+  | none => simp [hg] at h
+  | some d =>
+    simp only [hg] at h
+    split at h
+    · simp at h
+    · cases hr : c.dec creator with
+      | none => simp [hr] at h
+      | some receiver =>
+        simp only [hr] at h
+        split at h
+        · simp at h
+        · simp at h
+          subst h
+          exact ⟨d, rfl, rfl⟩
+
+theorem burn_supply {c : AddrCodec} {now : Int} {s s' : State} {denomId id burner : Bytes}
+    (h : handle c now s (.burnPNFT denomId id burner) = .ok s') :
+    s'.supply = s.supply.set denomId (decU64 (getSupply s denomId)) := by
+  have hv := validate_ok h
+  simp only [handle, validateBasic, hv, bind, Outcome.bind, pure] at h
+  cases hg : getPNFT c s denomId id with
+  | none => simp [hg] at h
+  | some p =>
+    simp only [hg] at h
+    split at h
+    · simp at h
+    · split at h
+      · simp at h
+      · simp at h
+        subst h
+        rfl
+
+theorem transferPNFT_frame {c : AddrCodec} {now : Int} {s s' : State} {denomId id sender receiver : Bytes}
+    (h : handle c now s (.transferPNFT denomId id sender receiver) = .ok s') :
+    s'.nfts = s.nfts ∧ s'.supply = s.supply ∧ s'.classes = s.classes := by
+  obtain ⟨p, r, _, _, _, _, rfl⟩ := transferPNFT_ok h
+  exact ⟨rfl, rfl, rfl⟩
+
 end Panacea.Pnft
